@@ -1404,7 +1404,12 @@ impl Scenario for DynScen {
             }
         }
         p.shape = Some(shape);
-        p.doc = doc.into_bytes();
+        if rng.chance(1, 16) {
+            p.doc = crate::scen_de::to_cp1251(rng, &doc);
+            p.note.push_str("; rewritten as windows-1251");
+        } else {
+            p.doc = doc.into_bytes();
+        }
         let (mut st, mode) = gen_stream(rng, &p.doc, false);
         st.keep_buf = false;
         st.faults.clear();
